@@ -139,4 +139,6 @@ def show_plot(sim, simclass, plot):
     plotfs = (eas_optical_density, eas_optical_histogram)
     inputs = ("beta_rad", "altDec", "showerEnergy")
     outputs = ("numPEs", "costhetaChEff")
+    if any(name not in sim.colnames for name in outputs):
+        return  # results of a run without the optical channel: nothing of this stage to plot
     decorators.nss_result_plot_from_file(sim, simclass, inputs, outputs, plotfs, plot)
